@@ -10,6 +10,8 @@ Verdict(e) ==
   IF ~e.exact THEN {"coordinates_not_dyadic"} ELSE
   LayoutFailing(e.h, e.root, e.X, e.Y, e.ux, e.uy, e.m)
   \cup (IF e.X2 = e.X /\ e.Y2 = e.Y /\ e.m2 = e.m THEN {} ELSE {"second_layout_differs"})
+  \* e.ynd: with units that are not exactly representable every row still equals depth * unit (compared as floats by the harness)
+  \cup (IF e.ynd THEN {} ELSE {"row_not_depth_times_unit"})
   \cup (IF e.h.n <= 9 /\ e.X # RefLayoutX(e.h, e.ux) THEN {"drift_reference_layout"} ELSE {})
   \cup (IF e.mirror_ok /\ \A i \in 1..e.h.n : e.XM[i] = -e.X[i] /\ e.YM[i] = e.Y[i] THEN {} ELSE {"mirrored_tree_not_mirrored"})
 VARIABLES i, v
